@@ -355,8 +355,12 @@ def bulk_by_evaluation(ctx: Ctx, rep: Report, bulk: ClassInfo, bbytes: FuncInfo)
     if init is None:
         return False
     verdicts = []
-    for rid, nr, mr, count in ((7, 0, 10, 1), (4711, 2, 5, 3), (1, 0, 0, 0)):
-        oids = [Sym(f"oid{i + 1}") for i in range(count)]
+    for rid, nr, mr, count in ((7, 0, 10, 1), (4711, 2, 5, 3), (1, 0, 0, 0), (9, 0, 2**31 - 1, 2), (9, 1, 50, 70), (9, 200, 1, 200), (3, 1, 3, -3)):
+        # count < 0: that many OIDs with the first one repeated (duplicates are legal and keep their positions)
+        oids = [Sym(f"oid{i + 1}") for i in range(abs(count))]
+        if count < 0:
+            oids[-1] = oids[0]
+            count = -count
         me = Instance(bulk, [], {})
         length_tokens = []
 
